@@ -79,3 +79,28 @@ Theorem c18_disc_search_finds :
   disc_def g_disc (strict g_disc 2 4) 3 2 4 [0; 1; 2; 3; 4].
 Proof. exact disc_search_finds. Qed.
 Print Assumptions c18_disc_search_finds.
+
+(* ---- tie (T): the local predicates of /repo, translated on every run into Gen/Gen_Preds.v by translator/predicates.py ----
+   pst g a b = the six marks between a and b; pag_pairs g = every pair of g is in a state a PAG can hold (the invariant of
+   C03).  Statements and the complete case analyses: Tie/Preds_C18.v, Tie/PredsProofs.v. *)
+From PG Require Import C03.PState Gen.Gen_Preds Tie.PredsProofs Tie.Preds_C18.
+
+(* uncovered_pd_path._pd_edge as translated from the source IS pd_edge of the model, with and without force_circle, on
+   every pair of every graph whose pairs are PAG pairs *)
+Theorem repo_pred_pd_edge : repo_pred_pd_edge_stmt.
+Proof. exact Tie.Preds_C18.repo_pred_pd_edge. Qed.
+Print Assumptions repo_pred_pd_edge.
+
+(* with c18_pd_edge_words: the translated test holds iff the wording of the property holds *)
+Theorem repo_pred_pd_edge_words : repo_pred_pd_edge_words_stmt.
+Proof. exact Tie.Preds_C18.repo_pred_pd_edge_words. Qed.
+Print Assumptions repo_pred_pd_edge_words.
+
+(* the "every edge potentially directed" clause of the path checker / enumerators, written with the translated test *)
+Theorem repo_pred_pd_edge_paths : repo_pred_pd_edge_paths_stmt.
+Proof. exact Tie.Preds_C18.repo_pred_pd_edge_paths. Qed.
+Print Assumptions repo_pred_pd_edge_paths.
+
+Theorem repo_pred_cells_C18 : gen_pd_edge_enum = gen_pd_edge_cells.
+Proof. exact Tie.Preds_C18.cells_C18. Qed.
+Print Assumptions repo_pred_cells_C18.
